@@ -14,7 +14,15 @@ import Dawgs.Model.C04
 namespace Dawgs.C04.Spec
 open Dawgs.C04
 
+/-- what a number must read back as: sign, integer or float8, magnitude (integer value or binary64 bit pattern of |v|) -/
+structure NumExp where
+  neg : Bool
+  isInt : Bool
+  mag : Nat
+  deriving DecidableEq, Repr, Inhabited
+
 inductive PVal where
+  | n (e : NumExp)
   | s (v : Str)
   | l (vs : List Str)
   | o (d : String)
@@ -45,6 +53,8 @@ structure Case where
   fmtstrip : Res := .skip     -- the statement formatted with OutputBuilder.StripLiterals = true (skip = same text)
   math : Res := .skip         -- the statement formatted with OutputBuilder.MaterializeParameters = true, hostile
   matb : Res := .skip         -- … benign twin
+  numH : Option NumExp := none   -- kinds num / nparam: what the hostile number denotes
+  numB : Option NumExp := none
   deriving Repr, Inhabited
 
 /-- the option parameters of the entry points and the values the suite runs every case under (compared with the
@@ -79,6 +89,7 @@ def denote (kind : String) (raw : Str) : Except String Str :=
     | .error .dangling => .error "decode-dangling"
     | .error .invalidEscape => .error "decode-invalid-escape"
   else if kind == "key" || kind == "ident" || kind == "kindname" then .ok (unescapeKey raw)
+  else if kind == "num" || kind == "nparam" then .ok raw
   else .ok raw
 
 /-- first occurrence of `needle` in `hay`: (before, after) -/
@@ -136,6 +147,8 @@ structure Cfg where
   hval : Str
   hvalLike : Str      -- the hostile value LIKE-escaped (to name the defect when it shows up where no LIKE is involved)
   hvalRaw : Str       -- the hostile value as denoted (to name the defect when a LIKE operand is NOT escaped)
+  numH : Option NumExp := none
+  numB : Option NumExp := none
 
 abbrev Cmp := Except (String × String) Nat
 
@@ -146,6 +159,11 @@ def showStr (s : Str) : String :=
   let body := (s.take 48).foldl (fun (acc : String) c =>
     if c.toNat < 32 || c == '"' || c == '\\' || c.toNat ≥ 127 then acc ++ "\\u{" ++ hexNat c.toNat ++ "}" else acc.push c) ""
   "\"" ++ body ++ (if s.length > 48 then "…\"(" ++ toString s.length ++ " chars)" else "\"")
+
+/-- does the number token read back (numeric input, then float8 for doubles) as the expected magnitude? -/
+def numReads (tok : Str) (e : NumExp) : Bool :=
+  let pq := decValue tok
+  if e.isInt then pq.1 == e.mag * pq.2 else nearestF64Bits pq == e.mag
 
 def tokBrief : Tok → String
   | .str v => "str" ++ showStr v
@@ -179,6 +197,14 @@ def cmpTok (cfg : Cfg) (i : Nat) (th tb : Tok) : Cmp :=
     else if !isName && valueMatch cfg.bval cfg.hvalLike vb vh then
       .error ("like-escaped-value", s!"at token {i}: the constant {tokBrief th} is the denoted string with \\ % _ escaped as for LIKE, in a position that is not a LIKE pattern")
     else mism "value-mismatch" i th tb
+  | .num vh, .num vb =>
+    if vh == vb then .ok 0
+    else match cfg.numH, cfg.numB with
+      | some eh, some eb =>
+        if !numReads vb eb then .error ("benign-number-value-mismatch", s!"at token {i}: benign number {tokBrief tb} does not read back as the benign value")
+        else if numReads vh eh then .ok 1
+        else .error ("number-value-mismatch", s!"at token {i}: the number {tokBrief th} read by the server (float8 bits / integer {if eh.isInt then (decValue vh).1 else nearestF64Bits (decValue vh)}) is not the value the query denotes ({eh.mag})")
+      | _, _ => mism "shape-mismatch" i th tb
   | .word vh, .word vb =>
     if vh == vb then .ok 0
     else if isName && valueMatch cfg.bval cfg.hval vb vh then
@@ -267,6 +293,10 @@ def cmpParams (cfg : Cfg) (nestedNames : List Str) : List (String × PVal) → L
       let here : Cmp :=
         if nestedNames.contains nh.toList then .ok 0
         else match vh, vb with
+          | .n a, .n b =>
+            if a == b then .ok 0
+            else if some a == cfg.numH && some b == cfg.numB then .ok 1
+            else .error ("param-value-mismatch", s!"numeric parameter {nh} is not the supplied value")
           | .s a, .s b => if a == b then .ok 0 else if valueMatch cfg.bval cfg.hval b a then .ok 1
               else .error ("param-value-mismatch", s!"parameter {nh} is not the supplied value")
           | .l a, .l b => cmpListVals cfg a b
@@ -284,7 +314,7 @@ def hasBadTok (ts : List Tok) : Option Tok :=
 def judgeOk (c : Case) (sqlH : Str) (pgxH : Int) (pH : List (String × PVal))
     (sqlB : Str) (pgxB : Int) (pB : List (String × PVal)) : Verdict :=
   let xfv := fun (v : Str) => if c.xf == "like" then likeEsc v else v
-  let cfg : Cfg := { kind := c.kind, bval := xfv c.bval, hval := xfv c.hval, hvalLike := likeEsc c.hval, hvalRaw := c.hval }
+  let cfg : Cfg := { kind := c.kind, bval := xfv c.bval, hval := xfv c.hval, hvalLike := likeEsc c.hval, hvalRaw := c.hval, numH := c.numH, numB := c.numB }
   let th := lexFast sqlH
   let tb := lexFast sqlB
   let nh := harnessArgs th
